@@ -276,7 +276,8 @@ def gen_cases(ctx):
         cases.append("Q 1 " + hx(s))
     # the same against the reference semantics run by the model runner
     for s in strs:
-        cases.append("QS 1 " + hx(s))
+        if len(s) <= 6:
+            cases.append("QS 1 " + hx(s))
     for s in rng.sample(strs, min(len(strs), 4000 if quick else 100000)):
         cases.append("Q 0 " + hx(s))
     for _ in range(6000 if quick else 200000):
@@ -394,6 +395,11 @@ def monitors(cases, t):
                 bad = [x for x in dec_list(w[3]) if UNI.prefixed_ns(x) in ns and x not in own]
                 if bad:
                     fails.append(("masked-gate-sound", c, "search allowed with masked term %r the searcher does not carry" % bad[0]))
+    # within a law, show first the inputs whose misreading is visible (a non-empty answer), shortest first
+    first = {}
+    for n, f in enumerate(fails):
+        first.setdefault(f[0], n)
+    fails.sort(key=lambda f: (first[f[0]], 1 if (t[f[1]].endswith(" - -") or f[2].endswith(" - -")) else 0, len(f[1])))
     return fails
 
 
